@@ -412,6 +412,9 @@ pub fn record(args: &Args) {
                                 (&js, Route { flag: "auto", src: "stdin", ext: "", to_file: false }),
                                 (&js, Route { flag: "json", src: "file", ext: ".txt", to_file: true }),
                                 (&js, Route { flag: "default", src: "file", ext: ".dat", to_file: false }),
+                                // an explicit format wins over a misleading file name
+                                (&efg, Route { flag: "gambit", src: "file", ext: ".json", to_file: false }),
+                                (&js, Route { flag: "json", src: "file", ext: ".efg", to_file: false }),
                             ];
                             let nroutes = if thorough { routes.len() } else { 4 };
                             for k in 0..nroutes {
